@@ -15,7 +15,7 @@ import (
 const (
 	c12IncName = "c12_included.liquid"
 	c12IncBody = "(inc:{{ x }}|{{ y }}|{{ i }}|{{ forloop.index }}){% assign z = 5 %}"
-	c12Probe   = "<{{ x }}|{{ y }}|{{ i }}|{{ forloop.index }}>"
+	c12Probe   = "<{{ x }}|{{ y }}|{{ i }}|{{ forloop.index }}{% if forloop == 'mine' %}M{% endif %}>"
 )
 
 var c12 struct {
@@ -29,6 +29,7 @@ const (
 	sAssignX2
 	sAssignYX
 	sInclude
+	sAssignForloop
 	nLeaf
 )
 const (
@@ -108,6 +109,8 @@ func c12Source(prog []c12Stmt, sb *strings.Builder) {
 				sb.WriteString("{% assign y = x %}")
 			case sInclude:
 				sb.WriteString(`{% include "` + c12IncName + `" %}`)
+			case sAssignForloop:
+				sb.WriteString("{% assign forloop = 'mine' %}")
 			}
 		} else {
 			open, close := "", ""
@@ -140,7 +143,7 @@ func c12Source(prog []c12Stmt, sb *strings.Builder) {
 
 type c12Store struct {
 	x, y, i string // printed values
-	fl      string // forloop.index as printed ("" outside loops)
+	fl      string // forloop.index as printed ("" outside loops); "M" when forloop was assigned 'mine'
 }
 
 func c12Run(prog []c12Stmt, st *c12Store, out *strings.Builder) {
@@ -155,7 +158,13 @@ func c12Run(prog []c12Stmt, st *c12Store, out *strings.Builder) {
 			case sAssignYX:
 				st.y = st.x
 			case sInclude:
-				out.WriteString("(inc:" + st.x + "|" + st.y + "|" + st.i + "|" + st.fl + ")")
+				fl := st.fl
+				if fl == "M" {
+					fl = "" // the included file prints forloop.index only
+				}
+				out.WriteString("(inc:" + st.x + "|" + st.y + "|" + st.i + "|" + fl + ")")
+			case sAssignForloop:
+				st.fl = "M"
 			}
 		} else {
 			switch s.block {
@@ -288,7 +297,7 @@ func init() {
 	explore.Register(&explore.Prop{
 		ID:    "C12",
 		Level: "model_checking",
-		Rule: "all programs of <=4 (quick) / <=5 (thorough) statements (block bodies count) over {assign x=1, assign x=2, assign y=x, include, capture x, for x (shadowing), for i with break, for forloop, tablerow x, if true, if false}, a probe reading x, y, i and forloop.index after every statement and at the start of every body, " +
+		Rule: "all programs of <=4 (quick) / <=5 (thorough) statements (block bodies count) over {assign x=1, assign x=2, assign y=x, include, assign forloop='mine', capture x, for x (shadowing), for i with break, for forloop, tablerow x, if true, if false}, a probe reading x, y, i and forloop.index after every statement and at the start of every body, " +
 			"each with x,y initially unbound and bound; oracle = reference interpreter with one flat store and save/restore of loop variable and forloop; plus the capture-equivalence law on every program and on fragment pairs from other generators; " +
 			"state = reference store after the program; transition = one program rendered",
 		Assumptions: []string{
